@@ -215,6 +215,39 @@ pub fn head_of<A: Codec>(seq: &Seq<A>) -> Option<u64> {
     v.get("bv")?.get("head")?.get("index")?.as_u64()
 }
 
+/// A `fmt::Write` sink that accepts at most `cap` bytes and then reports an error (a full fixed-size buffer).
+pub struct LimitedSink {
+    pub buf: String,
+    pub cap: usize,
+}
+
+impl std::fmt::Write for LimitedSink {
+    fn write_str(&mut self, s: &str) -> std::fmt::Result {
+        if self.buf.len() + s.len() > self.cap {
+            // take what fits, like a truncating buffer would, then fail
+            let room = self.cap - self.buf.len();
+            let mut cut = room.min(s.len());
+            while !s.is_char_boundary(cut) {
+                cut -= 1;
+            }
+            self.buf.push_str(&s[..cut]);
+            return Err(std::fmt::Error);
+        }
+        self.buf.push_str(s);
+        Ok(())
+    }
+}
+
+/// Format `first` into a sink that fails half way, then format `second` normally: what the second prints.
+pub fn display_after_failed_write(first: &dyn std::fmt::Display, first_len: usize, second: &dyn std::fmt::Display) -> String {
+    use std::fmt::Write;
+    let mut sink = LimitedSink { buf: String::new(), cap: first_len / 2 };
+    let _ = write!(sink, "{first}");
+    let mut sink0 = LimitedSink { buf: String::new(), cap: 0 };
+    let _ = write!(sink0, "{first}");
+    format!("{second}")
+}
+
 /// Does the real sequence hold exactly the symbols of the model list?
 /// (length, every `get(i)`, nothing past the end, and the displayed text)
 pub fn matches<A: Codec>(s: &SeqSlice<A>, want: &[A]) -> bool {
